@@ -1,14 +1,16 @@
 #!/bin/bash
-# tools/seedall.sh [tier]: mutation regression — every kept seeded change must be reported (exit 1) by the check
-# named in its meta.json (caught_by overrides the property). Uses scratch worktrees of /repo, never /repo itself.
+# tools/seedall.sh [tier] [parallel]: mutation regression — every kept seeded change must be reported (exit 1) by the
+# check named in its meta.json (caught_by overrides the property). Uses scratch worktrees of /repo, never /repo itself.
 cd "$(dirname "$0")/.."
-TIER=${1:-quick}
-MISS=0
-for d in seeded/C*; do
+TIER=${1:-quick}; PAR=${2:-3}
+one() {
+  d=$1; TIER=$2
   n=$(basename $d)
   P=$(python3 -c "import json;m=json.load(open('$d/meta.json'));cb=m.get('caught_by','');print(cb.split()[0] if cb else m['property'])")
   OUT=$(tools/seedtest.sh $d $TIER $P 2>&1 | grep "^check")
-  echo "$n: $OUT"
-  echo "$OUT" | grep -q "rc=1" || { MISS=$((MISS+1)); echo "   ^^^ NOT REPORTED"; }
-done
+  if echo "$OUT" | grep -q "rc=1"; then echo "$n: $OUT"; else echo "$n: $OUT   ^^^ NOT REPORTED"; fi
+}
+export -f one
+ls -d seeded/C* | xargs -P $PAR -I{} bash -c "one {} $TIER" | tee /tmp/seedall.$$.out
+MISS=$(grep -c "NOT REPORTED" /tmp/seedall.$$.out); rm -f /tmp/seedall.$$.out
 echo "SEEDALL tier=$TIER missed=$MISS"
